@@ -114,11 +114,11 @@ func init() {
 		ID: "C11",
 		Rule: "quick: 5 repo-file cases + 320 segmenter + 220 resegmenter + 300 combine-segs + 800 Fragmentify cases (about 4 100 tool runs + 6 400 library calls); thorough: 9 600 + 6 600 + 9 000 + 24 000 (about 125 000 tool runs + 192 000 library calls). " +
 			"segmenter case = one generated progressive movie (gen/prog.RandomMovie, own serializer, real avc1/hvc1/mp4a sample entries; exactly one video track and at most one audio track as the tool documents, 5% other track sets; stss/ctts v0,v1/sdtp/edts, stco|co64, all chunkings and interleavings, 35% adversarial timing) x 8 runs of bin/tools/segmenter over the flag sets {}, -m, -lazy, -m -lazy with -d from {1 ms, half a GOP, GOP-1, GOP, GOP+1, 1.5 GOP, 2..3 GOP, random, total, total+1000 ms}; " +
-			"resegmenter case = one generated single-track fragmented file (gen/frag history built by hand: video GOPs 1..n or audio, 8..80 samples, 1..4 segments x 1..3 fragments, cuts GOP-aligned or arbitrary, full/metadata-only/interval mdat modes, trun optimisation on/off, fields defaulted through trex, base decode time 0 or not, cto 0/positive/negative, 8% with a decode-time gap between two fragments; or gen/frag.Generate tame single-track) x 6 runs of bin/tools/resegmenter -d ticks from {1, half GOP, GOP-1, GOP, GOP+1, 2..3 GOP, presentation time of a later sync sample exactly and -1/+1, total+1000, 2^40}; " +
+			"resegmenter case = one generated single-track fragmented file (gen/frag history built by hand: video GOPs 1..n or audio, 8..80 samples, 1..4 segments x 1..3 fragments, cuts GOP-aligned or arbitrary, full/metadata-only/interval mdat modes, trun optimisation on/off, fields defaulted through trex, with/without styp, base decode time 0 or not, cto 0/positive/negative, 1/6 with boundary field values (durations 0/2^31/2^32-1, cto at the 2^31 edges, random flags, sizes 0..7), 8% with a decode-time gap between two fragments; 20% from gen/frag.Generate single-track) x 6 runs of bin/tools/resegmenter -d ticks from {1, half GOP, GOP-1, GOP, GOP+1, 2..3 GOP, presentation time of a later sync sample exactly and -1/+1, total+1000, 2^40}; " +
 			"Fragmentify case = the same generator (also with hostile field values) -> mp4.DecodeFile -> MediaSegment.Fragmentify(timescale, trex, d) for every segment and 8 values of d, output fragments encoded with Fragment.Encode; " +
 			"combine-segs case = two generated single-track inputs (one segment, one fragment, arbitrary field values incl. 2^31 cto edges and 64-bit decode times, verified by the reference expansion not to depend on trex) placed as testdata/V300/{init.mp4,1.m4s} and testdata/A48/{init.mp4,1.m4s} in a scratch cwd; " +
 			"repo-file cases: mp4/testdata/prog_8s.mp4 and bbb_prog_10s.mp4 through the segmenter, examples/resegmenter/testdata/testV300.mp4 through the resegmenter and Fragmentify, the combine-segs testdata (ground truth = reference expansion of the input bytes). " +
-			"Oracle, only for exit status 0 / nil error: every produced file tiles (reference walker); per track the concatenation over all produced segments (in segment-number order, expanded by ref/frag with the produced init) equals the input list: payload bytes, size, duration, composition offset, decode time, flags (progressive input: sync bit, and the sdtp fields when the track has sdtp; fragmented input: all 32 bits); nothing missing or extra at the end; the first reference-track sample of every produced segment (segmenter, resegmenter) is a sync sample of the input. " +
+			"Oracle, only for exit status 0 / nil error: every produced file tiles (reference walker); per track the concatenation over all produced segments (in segment-number order, expanded by ref/frag with the produced init) equals the input list: payload bytes, size, duration, composition offset, decode time, flags (progressive input: sync bit, and the sdtp fields when the track has sdtp; fragmented input: all 32 bits); nothing missing or extra at the end (when only the end differs the fields of the common prefix are still compared); no produced segment without samples; the first reference-track sample of every produced segment (segmenter, resegmenter) is a sync sample of the input. " +
 			"Non-zero exits are counted by reason; exit status 2 / goroutine dump / recovered panic of the library call is counted under tool_crash, not a C11 violation. Non-trivial = a successful run whose output was compared (hash of input bytes, tool, flags and duration); evaluations = tool runs + Fragmentify calls.",
 		Assumptions: []string{
 			"reference track of the segmenter = first trak with handler vide (getSegmentStartsFromVideo); of resegmenter/Fragmentify = the single track; combine-segs produces one segment whose start is whatever its inputs start with (sync-start is not evaluated there)",
@@ -410,7 +410,8 @@ func describeGot(g gotSample) string {
 	return fmt.Sprintf("{size %d dur %d cto %d dts %d flags %#x segment %d}", g.Size, g.Duration, g.Cto, g.DecodeTime, g.Flags, g.Seg+1)
 }
 
-// compareTrack checks one track. It returns true when the lists agree.
+// compareTrack checks one track. It returns true when the payload sequence of
+// the common prefix agrees (positions in the output then name input samples).
 func (k *comparer) compareTrack(wt *wantTrack, got []gotSample) bool {
 	markSegEnds(got)
 	kind := wt.Kind
@@ -468,7 +469,7 @@ func (k *comparer) compareTrack(wt *wantTrack, got []gotSample) bool {
 		}
 		k.viol(kind, "missing-at-end/"+cls, fmt.Sprintf("%s track: the output holds the first %d of the %d input samples: the last %d are missing (first missing: %s)", kind, len(got), n, n-len(got), describeWant(wt.Samples[len(got)], len(got))),
 			map[string]interface{}{"track_kind": kind, "input_samples": n, "output_samples": len(got)})
-		return false
+		// the fields of the common prefix are still compared
 	}
 	if len(got) > n {
 		g := got[n]
@@ -478,12 +479,10 @@ func (k *comparer) compareTrack(wt *wantTrack, got []gotSample) bool {
 		}
 		k.viol(kind, "extra-at-end", fmt.Sprintf("%s track: the output holds %d samples after the last of the %d input samples; the first of them %s is input sample %d", kind, len(got)-n, n, describeGot(g), src+1),
 			map[string]interface{}{"track_kind": kind, "input_samples": n, "output_samples": len(got)})
-		return false
 	}
-	// 2. the fields
-	ok := true
+	// 2. the fields (of the common prefix when the counts differ)
 	reported := map[string]bool{}
-	for i := 0; i < n; i++ {
+	for i := 0; i < m; i++ {
 		w, g := wt.Samples[i], got[i]
 		field, msg := "", ""
 		switch {
@@ -522,7 +521,6 @@ func (k *comparer) compareTrack(wt *wantTrack, got []gotSample) bool {
 		if field == "" {
 			continue
 		}
-		ok = false
 		pc := posClass(i, n, g)
 		if reported[field] {
 			continue
@@ -534,7 +532,7 @@ func (k *comparer) compareTrack(wt *wantTrack, got []gotSample) bool {
 		k.viol(kind, field+"/"+pc, fmt.Sprintf("%s track sample %d of %d (segment %d): %s", kind, i+1, n, g.Seg+1, msg),
 			map[string]interface{}{"track_kind": kind, "position": i + 1, "expected": describeWant(w, i), "got": describeGot(g), "input_samples": n})
 	}
-	return ok
+	return true
 }
 
 // checkSyncStart checks that the first reference-track sample of every
@@ -548,6 +546,10 @@ func (k *comparer) checkSyncStart(wt *wantTrack, got []gotSample) {
 		}
 		if i == 0 && !wt.Samples[0].Sync {
 			continue // not the tool's doing
+		}
+		k.c.Count("sync_start_segments_checked", 1)
+		if i > 0 {
+			k.c.Count("sync_start_later_segments_checked", 1)
 		}
 		if !wt.Samples[i].Sync {
 			cls := "later-segment"
